@@ -204,3 +204,30 @@ class IndexSinks:
                     if (a["path"], f["name"]) in self.field_sinks and fi < len(rv["ops"]):
                         out.append((bid, s.get("line"), a["path"], f["name"], rv["ops"][fi]))
         return out
+
+
+def forgotten_guards(facts):
+    """ADT paths of rollback guards: types with a Drop impl every construction of which is handed to mem::forget on every
+    path to a normal return - their destructor only ever runs while unwinding between the construction and the forget.
+    Returns {adt base path: [(body, bb of the construction)]}"""
+    out = {}
+    allb = getattr(facts, "all_bodies", facts.bodies)
+    built = collections.defaultdict(list)
+    for b in allb:
+        for bid, blk in b.blocks.items():
+            for i, st in enumerate(blk["stmts"]):
+                rv = st["rv"]
+                if rv["k"] == "aggregate" and rv.get("adt") and not st["dst"]["proj"]:
+                    a = facts.adts.get(rv["adt"])
+                    if a and a.get("drop"):
+                        built[rv["adt"]].append((b, bid, i))
+    for adt, sites in built.items():
+        ok = True
+        for b, bid, i in sites:
+            forgets = [bb for bb, t in b.calls() if t["callee"].get("path") in ("std::mem::forget", "core::mem::forget")
+                       and b.arg_origin(bb, 0) == ("agg", bid, i, ())]
+            if not forgets or not b.must_pass(bid, forgets)[0]:
+                ok = False
+        if ok:
+            out[adt] = [(b, bid) for b, bid, i in sites]
+    return out
